@@ -229,3 +229,51 @@ def check_solution_from(source, solvent, src_after, new):
         M.violate(['C19'], 'INSTR', 'C19:solution_from_names_wrong', {'instructions': text})
     else:
         M.note_nontrivial('C19', ('sf', text))
+
+
+def check_dataframe(c):
+    """Container.dataframe() (also behind repr() and the notebook display): every cell 'value unit' of a substance row and
+    of the Total row states the true amount in that dimension at the displayed precision; '-' only where the substance has
+    no such measure (moles of an enzyme, activity of anything else).  The 'Maximum Volume' row carries a bare number and is
+    not judged."""
+    M.count('INSTR.dataframe')
+    with M.oracle():
+        try:
+            df = c.dataframe()
+        except Exception as e:   # noqa
+            M.violate(['C19'], 'INSTR', f'C19:dataframe_raised:{type(e).__name__}', {'container': c.name, 'exc': repr(e)[:200]})
+            return
+    cols = {'Volume': 'L', 'Mass': 'g', 'Moles': 'mol', 'U': 'U'}
+    rows = [(s_.name, {s_: a_}, s_) for s_, a_ in c.contents.items()] + [('Total', dict(c.contents), None)]
+    bad = None
+    for rname, part, sub in rows:
+        if rname not in df.index or list(df.index).count(rname) != 1:
+            if rname == 'Total' or list(df.index).count(rname) == 0:
+                bad = (rname, None, 'row missing', None)
+                break
+            continue        # two substances of the same name: the table cannot tell them apart (not judged)
+        for col, b in cols.items():
+            cell = df.loc[rname, col]
+            actual = R.measure(part, b)
+            nomeasure = sub is not None and ((b == 'mol' and R.is_enzyme(sub)) or (b == 'U' and not R.is_enzyme(sub)))
+            if isinstance(cell, str) and cell.strip() == '-':
+                if not nomeasure:
+                    bad = (rname, col, cell, actual)
+                continue
+            toks = tokens(str(cell) + ' ')
+            if not toks or toks[0][2] != b or not (actual == actual and abs(actual) != float('inf')):
+                if actual == actual and abs(actual) != float('inf'):
+                    bad = (rname, col, str(cell), actual)
+                continue
+            if not token_matches(toks[0], {b: actual}, sum(abs(R.stored_quantum_in(s_, b)) for s_ in part) * R.K):
+                bad = (rname, col, str(cell), actual)
+        if bad:
+            break
+    M.bucket('C19/dataframe/' + ('ok' if not bad else 'bad'))
+    if bad:
+        M.violate(['C19'], 'INSTR', 'C19:dataframe_cell_ne_true_amount:' + ('total' if bad[0] == 'Total' else 'substance') + f':{bad[1]}',
+                  {'container': c.name, 'row': bad[0], 'column': bad[1], 'cell': bad[2], 'actual_base_units': bad[3],
+                   'contents': {s_.name: a_ for s_, a_ in c.contents.items()}})
+    else:
+        M.note_nontrivial('C19', ('df', c.name, tuple(sorted((s_.name, a_) for s_, a_ in c.contents.items()))))
+
